@@ -538,6 +538,11 @@ def run(repo: Repo, rep):
     r1_r2_formulas(repo, rep)
     from .c17 import r5_point_data  # samples of a partially evaluated product lie in it only if the fixed factor's Point has its coordinates in space order
     r5_point_data(repo, rep)
+    from .c17 import r1_roundtrip  # samples of an evaluated domain D(t=..) lie in the set the user built only if every constructor argument (pivot, flags, sub-domains) is carried over
+    r1_roundtrip(repo, rep)
+    from .c05 import r5_purity, r7_own_columns  # rejection steps hand the proposals to _contains: a test that shifts them in place, or reads other columns than its own, returns points outside the set
+    r5_purity(repo, rep)
+    r7_own_columns(repo, rep)
 
 
 _H = "src/torchphysics/problem/domains/domainoperations/sampler_helper.py"
